@@ -223,3 +223,199 @@ Proof.
   - apply mc_net; [exact Hn| |now apply core_hex].
     intros [E|[E|Hin]]; try discriminate. revert Hin. now apply hex_notin.
 Qed.
+
+(* ------------------------------------------------------------------ dotted quads *)
+Definition quad (a b c d : str) : str := a ++ 46 :: b ++ 46 :: c ++ 46 :: d.
+Definition opt_sfx (sep : N) (o : option str) : str := match o with Some s => sep :: s | None => [] end.
+Definition ip_text (h : str) (m p : option str) : str := h ++ opt_sfx 47 m ++ opt_sfx 58 p.
+
+(* characters of an IP text: digits . / : *)
+Definition ipch (c : N) : bool := is_digit c || (c =? 46) || (c =? 47) || (c =? 58).
+
+Lemma digits_ipch s : digits s = true -> forallb ipch s = true.
+Proof. intro H. apply digits_forall in H. revert H. apply forallb_imp. intros x Hx. unfold ipch. rewrite Hx. reflexivity. Qed.
+
+Lemma quad_ipch a b c d : digits a = true -> digits b = true -> digits c = true -> digits d = true ->
+  forallb ipch (quad a b c d) = true.
+Proof.
+  intros Ha Hb Hc Hd. unfold quad.
+  rewrite forallb_app, (digits_ipch a Ha). cbn [forallb andb]. change (ipch 46) with true. cbn [andb].
+  rewrite forallb_app, (digits_ipch b Hb). cbn [forallb andb]. change (ipch 46) with true. cbn [andb].
+  rewrite forallb_app, (digits_ipch c Hc). cbn [forallb andb]. change (ipch 46) with true. cbn [andb].
+  now apply digits_ipch.
+Qed.
+
+Lemma opt_sfx_ipch sep o : ipch sep = true -> opt_digits o = true -> forallb ipch (opt_sfx sep o) = true.
+Proof.
+  intros Hs Ho. destruct o as [s|]; [|reflexivity]. cbn [opt_sfx forallb]. rewrite Hs. cbn [andb].
+  now apply digits_ipch.
+Qed.
+
+(* the part of an IP text before its ':' contains digits . / only *)
+Definition ipch2 (c : N) : bool := is_digit c || (c =? 46) || (c =? 47).
+Lemma digits_ipch2 s : digits s = true -> forallb ipch2 s = true.
+Proof. intro H. apply digits_forall in H. revert H. apply forallb_imp. intros x Hx. unfold ipch2. rewrite Hx. reflexivity. Qed.
+Definition ipch1 (c : N) : bool := is_digit c || (c =? 46).
+Lemma digits_ipch1 s : digits s = true -> forallb ipch1 s = true.
+Proof. intro H. apply digits_forall in H. revert H. apply forallb_imp. intros x Hx. unfold ipch1. rewrite Hx. reflexivity. Qed.
+Lemma quad_ipch1 a b c d : digits a = true -> digits b = true -> digits c = true -> digits d = true ->
+  forallb ipch1 (quad a b c d) = true.
+Proof.
+  intros Ha Hb Hc Hd. unfold quad.
+  rewrite forallb_app, (digits_ipch1 a Ha). cbn [forallb andb]. change (ipch1 46) with true. cbn [andb].
+  rewrite forallb_app, (digits_ipch1 b Hb). cbn [forallb andb]. change (ipch1 46) with true. cbn [andb].
+  rewrite forallb_app, (digits_ipch1 c Hc). cbn [forallb andb]. change (ipch1 46) with true. cbn [andb].
+  now apply digits_ipch1.
+Qed.
+Lemma ipch1_2 s : forallb ipch1 s = true -> forallb ipch2 s = true.
+Proof. apply forallb_imp. intros x Hx. unfold ipch2. unfold ipch1 in Hx. rewrite Hx. reflexivity. Qed.
+
+Lemma dotted_quad a b c d : digits a = true -> digits b = true -> digits c = true -> digits d = true ->
+  dotted (quad a b c d) = Some (a, b, c, d).
+Proof.
+  intros Ha Hb Hc Hd. unfold dotted, quad.
+  rewrite (split_at_app 46 a) by (apply notin_digits; [exact Ha|reflexivity]).
+  rewrite (split_at_app 46 b) by (apply notin_digits; [exact Hb|reflexivity]).
+  rewrite (split_at_app 46 c) by (apply notin_digits; [exact Hc|reflexivity]).
+  rewrite Ha, Hb, Hc, Hd. reflexivity.
+Qed.
+
+Lemma quad_not_digits a b c d : digits (quad a b c d) = false.
+Proof.
+  unfold quad, digits. destruct (a ++ 46 :: b ++ 46 :: c ++ 46 :: d) eqn:E.
+  - destruct a; discriminate.
+  - rewrite <- E, forallb_app. cbn [forallb]. change (is_digit 46) with false. cbn [andb]. apply andb_false_r.
+Qed.
+
+Lemma app_not_digits h t : digits h = false -> h <> [] -> digits (h ++ t) = false.
+Proof.
+  intros H Hne. destruct h as [|x r]; [congruence|].
+  change (digits ((x :: r) ++ t)) with (forallb is_digit ((x :: r) ++ t)).
+  change (digits (x :: r)) with (forallb is_digit (x :: r)) in H. rewrite forallb_app, H. reflexivity.
+Qed.
+
+Lemma ip_mask_port_text a b c d m p :
+  digits a = true -> digits b = true -> digits c = true -> digits d = true ->
+  opt_digits m = true -> opt_digits p = true ->
+  ip_mask_port (ip_text (quad a b c d) m p) = Some (quad a b c d, m, p).
+Proof.
+  intros Ha Hb Hc Hd Hm Hp.
+  pose proof (quad_ipch1 a b c d Ha Hb Hc Hd) as Q1.
+  assert (Q47 : ~ In 47 (quad a b c d)) by (apply (forallb_notin ipch1); [exact Q1|reflexivity]).
+  assert (HM : forallb ipch2 (quad a b c d ++ opt_sfx 47 m) = true).
+  { rewrite forallb_app, (ipch1_2 _ Q1). destruct m as [s|]; [|reflexivity].
+    cbn [opt_sfx forallb andb]. change (ipch2 47) with true. cbn [andb]. now apply digits_ipch2. }
+  assert (H58 : ~ In 58 (quad a b c d ++ opt_sfx 47 m)) by (apply (forallb_notin ipch2); [exact HM|reflexivity]).
+  assert (D : is_dotted (quad a b c d) = true) by (unfold is_dotted; now rewrite dotted_quad).
+  unfold ip_mask_port, ip_text.
+  destruct p as [ps|]; cbn [opt_sfx].
+  - rewrite app_assoc, (split_at_app 58 _ ps H58).
+    destruct m as [ms|]; cbn [opt_sfx].
+    + rewrite (split_at_app 47 _ ms Q47), D. cbn [opt_digits] in *. rewrite Hm, Hp. reflexivity.
+    + rewrite app_nil_r, (split_at_none 47 _ Q47), D. cbn [opt_digits] in *. rewrite Hp. reflexivity.
+  - rewrite app_nil_r, (split_at_none 58 _ H58).
+    destruct m as [ms|]; cbn [opt_sfx].
+    + rewrite (split_at_app 47 _ ms Q47), D. cbn [opt_digits] in *. rewrite Hm. reflexivity.
+    + rewrite app_nil_r, (split_at_none 47 _ Q47), D. reflexivity.
+Qed.
+
+Lemma starts_0x_cls (f : N -> bool) s : forallb f s = true -> f 120 = false -> starts_0x s = false.
+Proof.
+  intros H Hf. unfold starts_0x. destruct s as [|a [|b r]]; try reflexivity.
+  cbn [forallb] in H. apply andb_true_iff in H as [_ H]. apply andb_true_iff in H as [Hb _].
+  destruct (b =? 120) eqn:E; [|apply andb_false_r]. apply N.eqb_eq in E. congruence.
+Qed.
+
+Lemma ip_text_ipch a b c d m p :
+  digits a = true -> digits b = true -> digits c = true -> digits d = true ->
+  opt_digits m = true -> opt_digits p = true -> forallb ipch (ip_text (quad a b c d) m p) = true.
+Proof.
+  intros Ha Hb Hc Hd Hm Hp. unfold ip_text.
+  rewrite !forallb_app, (quad_ipch a b c d Ha Hb Hc Hd), (opt_sfx_ipch 47 m eq_refl Hm), (opt_sfx_ipch 58 p eq_refl Hp).
+  reflexivity.
+Qed.
+
+Lemma quad_head a b c d : digits a = true -> exists x r, quad a b c d = x :: r /\ 48 <= x <= 57.
+Proof.
+  intro Ha. destruct (digit_head a Ha) as (x & r & -> & Hx). exists x. eexists. split; [reflexivity|exact Hx].
+Qed.
+
+Lemma core_ip a b c d m p :
+  digits a = true -> digits b = true -> digits c = true -> digits d = true ->
+  opt_digits m = true -> opt_digits p = true ->
+  match_core (ip_text (quad a b c d) m p) = Some (CIp (quad a b c d) m p).
+Proof.
+  intros Ha Hb Hc Hd Hm Hp. unfold match_core.
+  pose proof (ip_text_ipch a b c d m p Ha Hb Hc Hd Hm Hp) as HI.
+  destruct (quad_head a b c d Ha) as (x & r & E & Hx).
+  assert (S1 : str_eqb (ip_text (quad a b c d) m p) [42] = false).
+  { unfold ip_text. rewrite E. cbn [app]. now apply digit_first_not_star. }
+  rewrite S1. unfold is_field.
+  rewrite (starts_0x_cls ipch _ HI eq_refl). cbn [andb]. rewrite orb_false_r.
+  replace (digits (ip_text (quad a b c d) m p)) with false.
+  - rewrite (ip_mask_port_text a b c d m p Ha Hb Hc Hd Hm Hp). reflexivity.
+  - symmetry. unfold ip_text. apply app_not_digits; [apply quad_not_digits|]. rewrite E. discriminate.
+Qed.
+
+Lemma ip_text_noprefix a b c d m p :
+  digits a = true -> digits b = true -> digits c = true -> digits d = true ->
+  opt_digits m = true -> opt_digits p = true ->
+  noprefix (ip_text (quad a b c d) m p) = true.
+Proof.
+  intros Ha Hb Hc Hd Hm Hp.
+  pose proof (quad_ipch1 a b c d Ha Hb Hc Hd) as Q1.
+  assert (HM : forallb ipch2 (quad a b c d ++ opt_sfx 47 m) = true).
+  { rewrite forallb_app, (ipch1_2 _ Q1). destruct m as [s|]; [|reflexivity].
+    cbn [opt_sfx forallb andb]. change (ipch2 47) with true. cbn [andb]. now apply digits_ipch2. }
+  assert (H58 : ~ In 58 (quad a b c d ++ opt_sfx 47 m)) by (apply (forallb_notin ipch2); [exact HM|reflexivity]).
+  destruct (quad_head a b c d Ha) as (x & r & E & Hx).
+  unfold noprefix, ip_text. destruct p as [ps|]; cbn [opt_sfx].
+  - rewrite app_assoc, (split_at_app 58 _ ps H58).
+    rewrite app_not_digits; [|apply quad_not_digits|rewrite E; discriminate].
+    rewrite E. cbn [app]. destruct (digit_first_not_star x (r ++ opt_sfx 47 m) Hx) as [-> _]. reflexivity.
+  - rewrite app_nil_r, (split_at_none 58 _ H58). reflexivity.
+Qed.
+
+Lemma ipch_nonl s : forallb ipch s = true -> nonl s = true.
+Proof. apply forallb_imp. intros x. unfold ipch, is_digit. lia. Qed.
+
+(* "a.b.c.d[/len][:port]" *)
+Lemma decode_ip a b c d m p :
+  digits a = true -> digits b = true -> digits c = true -> digits d = true ->
+  opt_digits m = true -> opt_digits p = true ->
+  decode_str (ip_text (quad a b c d) m p) =
+    do x <- ip_from_text (quad a b c d) m p;
+    Ok (mkAddr ALocalStation None (Some (fst x)) None (Some (snd x))).
+Proof.
+  intros Ha Hb Hc Hd Hm Hp.
+  pose proof (ip_text_ipch a b c d m p Ha Hb Hc Hd Hm Hp) as HI.
+  destruct (quad_head a b c d Ha) as (x & r & E & Hx).
+  rewrite (decode_of_match _ PNone (CIp (quad a b c d) m p)).
+  - unfold decode_matched. cbn [bind]. destruct (ip_from_text (quad a b c d) m p); reflexivity.
+  - now apply ipch_nonl.
+  - unfold ip_text. rewrite E. cbn [app]. now apply digit_first_not_star.
+  - unfold ip_text. rewrite E. cbn [app]. now apply digit_first_not_star.
+  - apply mc_noprefix.
+    + apply (forallb_notin ipch); [exact HI|reflexivity].
+    + now apply ip_text_noprefix.
+    + now apply core_ip.
+Qed.
+
+(* "<net>:a.b.c.d[/len][:port]" *)
+Lemma decode_net_ip n a b c d m p : digits n = true ->
+  digits a = true -> digits b = true -> digits c = true -> digits d = true ->
+  opt_digits m = true -> opt_digits p = true ->
+  decode_str (n ++ 58 :: ip_text (quad a b c d) m p) =
+    if (65535 <=? Z.of_N (dec_val n))%Z then Err ValueErr
+    else do x <- ip_from_text (quad a b c d) m p;
+         Ok (mkAddr ARemoteStation (Some (Z.of_N (dec_val n))) (Some (fst x)) None (Some (snd x))).
+Proof.
+  intros Hn Ha Hb Hc Hd Hm Hp.
+  pose proof (ip_text_ipch a b c d m p Ha Hb Hc Hd Hm Hp) as HI.
+  destruct (net_text_facts n _ Hn (ipch_nonl _ HI)) as (F1 & F2 & F3).
+  rewrite (decode_of_match _ (PNet n) (CIp (quad a b c d) m p) F1 F2 F3).
+  - unfold decode_matched, net_check. destruct (65535 <=? Z.of_N (dec_val n))%Z; cbn [bind]; [reflexivity|].
+    destruct (ip_from_text (quad a b c d) m p); reflexivity.
+  - apply mc_net; [exact Hn| |now apply core_ip].
+    apply (forallb_notin ipch); [exact HI|reflexivity].
+Qed.
